@@ -20,4 +20,35 @@ def match(findings, pid, cex, obs):
     return None
 
 
-MATCHERS = {}
+def _unbox(t):
+    while t.get('kind') == 'boxed': t = t['inner']
+    return t
+
+
+def m_sms_map_some(cex, obs=None, msg=None):
+    """a bare SourceMapSource (no inner map) whose given map has no mapped segment: map() returns the stored map as is"""
+    from .confirm import v3_decode
+    t = _unbox(cex.get('tree') or {})
+    if t.get('kind') != 'sms' or t.get('inner_map') is not None: return False
+    try: segs = v3_decode(t['map']['mappings'])
+    except Exception: return False
+    if any(len(s) >= 5 for s in segs): return False
+    text = msg if msg is not None else cex.get('oracle', '')
+    return 'map() is Some although the chunk stream has no mapped chunk' in text
+
+
+MATCHERS = {'sms-map-some-without-mapped-segment': m_sms_map_some}
+
+
+def split_known(findings, pid_list, tree_obs, violations):
+    """violations [(prop, msg)] of one observed tree -> (unknown, known ids). Only 'open' findings suppress."""
+    unknown, hits = [], []
+    for (p, msg) in violations:
+        hit = None
+        for k in findings:
+            if k.get('status') != 'open' or p not in k.get('properties', []): continue
+            f = MATCHERS.get(k['id'])
+            if f is not None and f({'tree': tree_obs.get('tree')}, None, msg): hit = k['id']; break
+        if hit: hits.append(hit)
+        else: unknown.append((p, msg))
+    return unknown, hits
